@@ -647,7 +647,7 @@ def _cnf_t3(kind):
         # REAL clause_lits (not stubbed); everything below it scripted
         "inject": [i for i in t2["inject"] if "clause_lits" not in i[2]] + _QUEUE["inject"],
         "append_text": t2["append_text"] + [_SMALL_WRITER],
-        "params": {"quick": {"N": 2, "QCAP": 16, "MAXLITS": 2 if kind == "cnf" else 1}, "thorough": {"N": 2, "QCAP": 16, "MAXLITS": 2}},
+        "params": {"quick": {"N": 2, "QCAP": 16, "MAXLITS": 2 if kind == "cnf" else 1}, "thorough": {"N": 2, "QCAP": 16, "MAXLITS": 2 if kind in ("cnf", "gcnf") else 1}},
         "flags": ["--default-unwind", "4"],
         "rss_gb": 20,
         "timeout": {"quick": 1500, "thorough": 3000},
